@@ -248,6 +248,8 @@ def bootstrap_client_traces(run, tier, seed, cfg, n_quick=24, n_thorough=240):
             run.witness(f"B_{val['B']}")
             if val.get("stress"):
                 run.witness("run_with_extrapolating_units")
+            if val.get("presidential"):
+                run.witness("run_with_presidential_correction")
             if val.get("fully_reported") and any(g["top"] and g["name"] in val["stop"] for g in val["groups"]):
                 run.witness("fully_reported_run_with_stopped_contest")
         else:
@@ -281,7 +283,7 @@ def c06(tier, seed):
     _validate_bootstrap(run, traces, "Trace_Bootstrap_C06.cfg")
     run.sample({"bounds_record": traces[-1]})
     bootstrap_client_traces(run, tier, seed, "Trace_Bootstrap_C06.cfg")
-    run.finish(require_witnesses=["rank_records", "bounds_records", "client_run", "district_office_run", "run_with_extrapolating_units", "B_2", "B_40"])
+    run.finish(require_witnesses=["rank_records", "bounds_records", "client_run", "district_office_run", "run_with_extrapolating_units", "run_with_presidential_correction", "B_2", "B_40"])
 
 
 # ---------------------------------------------------------------------------------------------------------------
@@ -317,7 +319,8 @@ def _natsum_universe(rnd, n, contests=("AA", "BB"), pv=(-6, -1, 1, 6), dv=(-4, 4
                 stop=[c for c in cs if rnd.random() < 0.3],
                 corr=rnd.random() < 0.5,
                 base=rnd.choice([0, 10]),
-                nweights=len(cs) + (rnd.choice([-1, 1]) if rnd.random() < 0.05 else 0),
+                # wrong-size weight dictionaries: one too few, one too many, several too many, and the empty dictionary
+                nweights=(rnd.choice([len(cs) - 1, len(cs) + 1, len(cs) + 3, 0]) if rnd.random() < 0.06 else len(cs)),
             )
         )
     return out
@@ -366,11 +369,13 @@ def _job_natsum_client(arg):
             row = df.iloc[0]
             trip = {str(k + 1): {"pred": row["agg_pred"], "lower": row[f"lower_{a}"], "upper": row[f"upper_{a}"]} for k, a in enumerate(alphas)}
             tok = hashlib.sha1(repr([(k, float(v[x]).hex()) for k, v in sorted(trip.items()) for x in ("pred", "lower", "upper")]).encode()).hexdigest()[:12]
-            try:
-                c.get_national_summary_votes_estimates({"AA": 1}, base, alphas)
-                wrong = "accepted"
-            except BootstrapElectionModelException:
-                wrong = "error"
+            wrong = "error"
+            for wd in ({"AA": 1}, {}, {s: 1 for s in list(states) + ["ZZ", "YY"]}):
+                try:
+                    c.get_national_summary_votes_estimates(dict(wd), base, alphas)
+                    wrong = "accepted"
+                except BootstrapElectionModelException:
+                    pass
             runs.append({"history": list(h), "kind": "ok", "tok": tok, "wrongsize": wrong})
             if h == histories[0]:
                 sd = res["state_data"].set_index("postal_code")
